@@ -196,7 +196,7 @@ def circuit_spec(
         conns = {}
         for p in bbtypes[ti][1]:
             conn = True
-            if unconnected_pins:
+            if unconnected_pins and unconnected_pins != "outputs":
                 conn = draw(st.integers(0, 4)) != 0
             if conn:
                 conns[p] = draw(st.sampled_from(drivable))
